@@ -63,6 +63,11 @@ var orderContracts = map[string]orderContract{
 	"(*Proof).Update": {[]fieldOC{proofOC("P"), {"": raw("P")}, {"": raw("ADD")}, {"": raw("B")}, {"": OC{ocBuilt, "remembers"}}, updateDataOC}},
 	// func (p *Proof) Undo(numAdds, numLeaves uint64, dels []uint64, delHashes, cachedHashes []Hash, toDestroy []uint64, proof Proof)
 	"(*Proof).Undo": {[]fieldOC{proofOC("P"), nil, nil, {"": raw("B")}, {"": raw("B")}, {"": raw("P")}, {"": OC{ocBuilt, "toDestroy"}}, proofOC("B")}},
+	// func (cs *CachingScheduleTracker) AddBlockSummary(deletions []uint64, numAdds uint16)
+	"(*CachingScheduleTracker).AddBlockSummary": {[]fieldOC{nil, {"": raw("D")}}},
+	// func getPrevPos(totalRows uint8, cached, deleted, toDestroy []uint64, numAdds uint16, numLeaves uint64)
+	// (reached from genTTLs with the recorded deletions of a block, kept in the prover's order)
+	"getPrevPos": {[]fieldOC{nil, {"": OC{ocBuilt, "cached"}}, {"": raw("D")}, {"": OC{ocBuilt, "toDestroy"}}}},
 	// Prove(hashes []Hash)
 	"(*Pollard).Prove":    {[]fieldOC{nil, {"": raw("H")}}},
 	"(*MapPollard).Prove": {[]fieldOC{nil, {"": raw("H")}}},
